@@ -821,6 +821,8 @@ def c04(tier, seed):
     v.exhaustive = th
     scs += extra_scenarios("C04")
     scs += drive("C04", "stroke", seed, 2000 if th else 250)
+    # a non-positive or NaN width paints nothing (plain and dashed strokes, every cap and join)
+    scs += drive("C04", "stroke-nonpos", seed, 400 if th else 60) + drive("C04", "stroke-nonpos", seed + 1, 400 if th else 60)
     simple_validate("C04", v, scs, "all", "Trace_Stroke", sigfn=stroke_sig, timeout=3000)
     # curved paths stroked with round joins (margin 1 px): the tube of half the width around the curve
     g, cs = gen_scenarios("C04", "Gen_Curve", env={"FAM": "cstroke", "NOPS": 4, "NVAR": 1, "SALT": seed}, simulate=1500 if th else 120,
